@@ -25,6 +25,10 @@ type Case struct {
 	Fault  Fault  `json:"f"`
 	Cancel bool   `json:"cancel,omitempty"` // the client goes away as soon as a statement blocks
 	Now    int64  `json:"now,omitempty"`    // value of the symbolic NOW (s); 0 = this process's runNow
+	// FollowUp: after the request, the same request again against a HEALTHY database under the SAME database name
+	// (state keyed by the name — version cache, single-flight marks, pools — is what the first request left behind;
+	// the cache is cold whenever the first request failed inside the version lookup): "one" | "pair" (two at once)
+	FollowUp string `json:"follow_up,omitempty"`
 	// CensusMs / ResponseMs override the census and response bounds (the grid run uses short ones, confirmation
 	// runs the generous ones).
 	CensusMs   int `json:"census_ms,omitempty"`
@@ -32,7 +36,11 @@ type Case struct {
 }
 
 func (c Case) String() string {
-	return fmt.Sprintf("%s q=%q [%s] driver=%s cancel=%v", c.Route, c.Query, c.Params, c.Fault, c.Cancel)
+	f := ""
+	if c.FollowUp != "" {
+		f = " then-healthy-follow-up=" + c.FollowUp
+	}
+	return fmt.Sprintf("%s q=%q [%s] driver=%s cancel=%v%s", c.Route, c.Query, c.Params, c.Fault, c.Cancel, f)
 }
 
 // Result is what the worker reports for one case.
@@ -137,6 +145,36 @@ func runCase(h *rh.Harness, c Case) Result {
 		res.BodyOK = string(b)
 	}
 	classify(&res)
+	if res.Class == "" && c.FollowUp != "" {
+		// healthy database, same name, no fault
+		fsc := newScript(Fault{Shape: "1batch"})
+		h.Script.SetHandler(fsc.Handle)
+		freq := spec.Build(c.Query, resolve(c.Params, spec.Unit))
+		if c.CensusMs > 0 {
+			rh.CensusBound = time.Duration(c.CensusMs) * time.Millisecond
+		}
+		if c.ResponseMs > 0 {
+			rh.ResponseBound = time.Duration(c.ResponseMs) * time.Millisecond
+		}
+		var outs []rh.Outcome
+		if c.FollowUp == "pair" {
+			outs = h.DoConcurrent([]rh.Request{freq, freq})
+		} else {
+			outs = []rh.Outcome{h.Do(freq)}
+		}
+		rh.CensusBound, rh.ResponseBound = old, oldR
+		res.Unknown = append(res.Unknown, fsc.Unknown...)
+		for _, fo := range outs {
+			fr := Result{Out: fo}
+			classify(&fr)
+			if fr.Class != "" {
+				res.Out = fo
+				res.Class = "follow_up_request:" + fr.Class
+				res.What = "after the request above, the same request against a healthy database (same database name): " + fr.What
+				break
+			}
+		}
+	}
 	return res
 }
 
